@@ -9,6 +9,7 @@ import SF.Ops.Cbor
 import SF.Ops.Ubjson
 import SF.Ops.Json
 import SF.Ops.Unfold
+import SF.Ops.Fu
 import SF.Ops.Fold
 import SF.Gotype.Symbols
 namespace SF.Ops
@@ -307,6 +308,8 @@ def runLine (op : String) (impl : String) : Result :=
   | "unf" :: args => opUnf args impl
   | "unf-reuse" :: args => opUnfReuse args impl
   | "unf-type" :: args => opUnfType args impl
+  | "unf-seq" :: args => opUnfSeq args impl
+  | "fu" :: args => opFu args impl
   | "unfx" :: args => opUnfWhatIf args impl
   | "unfc" :: args => opUnfClaim args impl
   | _ => { model := none }
